@@ -603,6 +603,12 @@ def normalise_control(stmts: list[ast.stmt]) -> list[ast.stmt]:
                 out.append(ast.copy_location(ast.If(test=test, body=normalise_control(body + rest) or [ast.Pass()],
                                                     orelse=normalise_control(orelse)), st))
                 return out
+            if rest and _merges_local(body, orelse, rest) and _size(rest) <= TAIL_DUP_LIMIT:
+                # a local assigned differently on the two branches and used afterwards: the statements that follow are
+                # analysed once per branch (tail duplication), so each use sees one definition
+                out.append(ast.copy_location(ast.If(test=test, body=normalise_control(body + clone_block(rest)) or [ast.Pass()],
+                                                    orelse=normalise_control(orelse + clone_block(rest)) or [ast.Pass()]), st))
+                return out
             out.append(ast.copy_location(ast.If(test=test, body=normalise_control(body) or [ast.Pass()], orelse=normalise_control(orelse)), st))
             continue
         if isinstance(st, (ast.For, ast.While)):
@@ -620,12 +626,31 @@ def normalise_control(stmts: list[ast.stmt]) -> list[ast.stmt]:
     return out
 
 
+TAIL_DUP_LIMIT = 14
+
+
+def _size(stmts: list[ast.stmt]) -> int:
+    return sum(1 for s in stmts for n in ast.walk(s) if isinstance(n, ast.stmt))
+
+
+def _merges_local(body: list[ast.stmt], orelse: list[ast.stmt], rest: list[ast.stmt]) -> bool:
+    stored = {n.id for s in body + orelse for n in ast.walk(s) if isinstance(n, ast.Name) and isinstance(n.ctx, ast.Store)}
+    if not stored:
+        return False
+    # names bound by loops / augmented assignments inside the branches are not simple merges
+    loopish = {n.id for s in body + orelse for l in ast.walk(s) if isinstance(l, (ast.For, ast.While, ast.AugAssign))
+               for n in ast.walk(l) if isinstance(n, ast.Name) and isinstance(n.ctx, ast.Store)}
+    stored -= loopish
+    return any(isinstance(n, ast.Name) and isinstance(n.ctx, ast.Load) and n.id in stored for s in rest for n in ast.walk(s))
+
+
 def clone_block(stmts: list[ast.stmt]) -> list[ast.stmt]:
     return [clone(s) for s in stmts]
 
 
 class Signature:
-    def __init__(self, fn_node: ast.FunctionDef, roles: list[str] | None):
+    def __init__(self, fn_node: ast.FunctionDef, roles: list[str] | None, lenient: bool = False):
+        self.lenient = lenient
         fn = _strip(fn_node)
         fn.body = normalise_control(fn.body) or [ast.Pass()]
         ast.fix_missing_locations(fn)
@@ -651,6 +676,8 @@ class Signature:
             tnames = [l.target.id] if isinstance(l.target, ast.Name) else (
                 [e.id for e in l.target.elts] if isinstance(l.target, ast.Tuple) and all(isinstance(e, ast.Name) for e in l.target.elts) else None)
             if tnames is None:
+                if lenient:
+                    continue
                 raise AnalysisError(f"kernel {fn.name}: loop target `{norm(l.target)}` is not a name or a tuple of names")
             penv = PolyEnv()
             if isinstance(l.iter, ast.Call) and dotted(l.iter.func) == "range" and len(tnames) == 1:
@@ -662,6 +689,9 @@ class Signature:
             for i, old in enumerate(tnames):
                 new = f"L<{ext}>" if len(tnames) == 1 else f"L<{ext}>#{i}"
                 if old in mapping and mapping[old] != new:
+                    if lenient:
+                        mapping[old] = old
+                        continue
                     raise AnalysisError(f"kernel {fn.name}: loop variable {old} reused with a different extent")
                 mapping[old] = new
         fn = _Rename(mapping).visit(fn)
@@ -681,8 +711,23 @@ class Signature:
                                     (isinstance(dd.value, ast.JoinedStr) or isinstance(dd.value.value, str)) for dd in ds)
 
         self.messages = {v for v in order if is_message(v)}
-        multi = [v for v in order if v not in self.messages and
-                 (counts[v] > 1 or any(dd.kind in ("aug", "unpack") for dd in flow.defs if dd.var == v))]
+
+        def transparent(v: str) -> bool:
+            """Every read of v sees exactly one plain assignment: v is substituted wherever it is used."""
+            if any(dd.kind not in ("assign",) for dd in flow.defs if dd.var == v):
+                return False
+            for n in ast.walk(fn):
+                if isinstance(n, ast.Name) and n.id == v and isinstance(n.ctx, ast.Load):
+                    try:
+                        at = flow.node_for(n)
+                    except AnalysisError:
+                        return False
+                    ds = flow.reaching(v, at)
+                    if len(ds) != 1 or ds[0].kind != "assign":
+                        return False
+            return True
+
+        multi = [v for v in order if v not in self.messages and not transparent(v)]
         fn = _Rename({v: f"$v{i}" for i, v in enumerate(multi)}).visit(fn)
         # returned / locally allocated arrays by order
         fi = _fi(fn)
@@ -698,8 +743,13 @@ class Signature:
         self.flow = Flow(fi)
         self.loopvars = set(mapping.values())
         self.facts: set[tuple] = set()
+        self.trace: list[tuple] = []   # the same effects in program order
         self._seq: dict[str, int] = {}
         self._collect(fn.body, ())
+
+    def _add(self, fact: tuple) -> None:
+        self.facts.add(fact)
+        self.trace.append(fact)
 
     def _canon(self, e: ast.AST, at: ast.AST, keep: set[str] = frozenset()) -> str:
         stop = set(self.loopvars) | set(keep)
@@ -742,23 +792,23 @@ class Signature:
                         # used still happened
                         if any(is_impure_call(x) for x in ast.walk(st.value)) and not any(
                                 isinstance(n, ast.Name) and n.id == t.id and isinstance(n.ctx, ast.Load) for n in ast.walk(self.fn)):
-                            self.facts.add(("expr", self._canon(st.value, st), ctx))
+                            self._add(("expr", self._canon(st.value, st), ctx))
                         continue
                     v = vals[i] if vals is not None else st.value
                     tag = f"[{i}]" if vals is None and len(tgts) > 1 else ""
                     tt = self._target(t, st)
-                    self.facts.add(("set", tt, "=", self._canon(v, st) + tag, ctx, self._next(tt)))
+                    self._add(("set", tt, "=", self._canon(v, st) + tag, ctx, self._next(tt)))
             elif isinstance(st, ast.AugAssign):
                 tt = self._target(st.target, st)
-                self.facts.add(("set", tt, type(st.op).__name__ + "=", self._canon(st.value, st), ctx, self._next(tt)))
+                self._add(("set", tt, type(st.op).__name__ + "=", self._canon(st.value, st), ctx, self._next(tt)))
             elif isinstance(st, ast.Return):
-                self.facts.add(("ret", self._canon(st.value, st) if st.value is not None else "None", ctx))
+                self._add(("ret", self._canon(st.value, st) if st.value is not None else "None", ctx))
             elif isinstance(st, ast.Expr):
                 if isinstance(st.value, ast.Constant):
                     continue
-                self.facts.add(("expr", self._canon(st.value, st), ctx))
+                self._add(("expr", self._canon(st.value, st), ctx))
             elif isinstance(st, ast.Raise):
-                self.facts.add(("raise", ctx))
+                self._add(("raise", ctx))
             elif isinstance(st, ast.While):
                 c = self._canon(st.test, st)
                 self.skeleton.append(ctx + (f"while {c}",))
@@ -775,11 +825,13 @@ class Signature:
                 self._collect(st.orelse, ctx + ("tryelse",))
                 self._collect(st.finalbody, ctx + ("finally",))
             elif isinstance(st, ast.Break):
-                self.facts.add(("break", ctx, self._next("break" + str(ctx))))
+                self._add(("break", ctx, self._next("break" + str(ctx))))
             elif isinstance(st, ast.Continue):
-                self.facts.add(("continue", ctx, self._next("continue" + str(ctx))))
+                self._add(("continue", ctx, self._next("continue" + str(ctx))))
             elif isinstance(st, ast.Pass):
                 continue
+            elif self.lenient:
+                self._add(("stmt", norm(st), ctx))
             else:
                 raise AnalysisError(f"kernel {self.fn.name}: unsupported statement {type(st).__name__}")
 
